@@ -305,7 +305,7 @@ def checksOk (H : Hashes) (c : Bytes) (x : Cks) : Bool :=
   (x.crc32.all (· = H.crc32 c)) && (x.crc32c.all (· = H.crc32c c)) &&
   (x.sha1.all (· = H.sha1 c)) && (x.sha256.all (· = H.sha256 c))
 
-/-- the removal loop of `delete_objects` (7d30be5): a path at which nothing exists — the key never existed, or an earlier
+/-- the removal loop of `delete_objects` (c55c267): a path at which nothing exists — the key never existed, or an earlier
     item of the request removed it — is skipped, a file is removed (`remove_file` fails on a directory); every key the
     loop gets past is reported -/
 def removeFiles (bd : Bytes) : List (Path × Bytes) → State → List Bytes → State × Option (List Bytes)
@@ -459,7 +459,7 @@ def step (H : Hashes) (dirLen : Nat) (s : State) : Op → State × Resp
       | some bd =>
         if !alHas bd s.buckets then (s, .err .NoSuchBucket)
         else
-        -- 7d30be5: every requested key goes through the removal loop (before, only those that existed beforehand did)
+        -- c55c267: every requested key goes through the removal loop (before, only those that existed beforehand did)
         match removeFiles bd (rs.map fun r => (r.1.2, r.2)) s [] with
         | (s1, none) => (s1, .err .InternalError)
         | (s1, some ks) => (s1, .deleted ks)
@@ -495,7 +495,7 @@ def step (H : Hashes) (dirLen : Nat) (s : State) : Op → State × Resp
                 let (s2, ok) := s.commitFile dbd dp c
                 if !ok then (s2, .err .InternalError)
                 else
-                  -- aa68bb7 `copy_side_file`, for the metadata file and then for the internal-info file: the source's file is
+                  -- 8faafe7 `copy_side_file`, for the metadata file and then for the internal-info file: the source's file is
                   -- copied over the destination's; when the source has none, the destination's is removed (`exists()` is
                   -- false for a name the OS refuses)
                   let srcMeta := if sideTooLong sb sk false then none else alLookup (sb, sk) s2.metas
@@ -594,7 +594,7 @@ def step (H : Hashes) (dirLen : Nat) (s : State) : Op → State × Resp
     | some id =>
       if !alHas id s.uploads then (s, .err .NoSuchUpload)
       else
-        -- the part files of the upload, in whatever order the directory is read; then (1d762a7)
+        -- the part files of the upload, in whatever order the directory is read; then (764f144)
         -- `parts.sort_by_key(|part| part.part_number)`: ascending part numbers
         let ps := s.parts.filterMap fun e => if e.1.1 = id then some (e.1.2, e.2.length) else none
         (s, .parts (sortParts ps))
